@@ -129,7 +129,7 @@ def classify(s, i, diffs):
         within_some = any(s["age"] < ttl.get(f, 0) for f in asked1)
         if within_some and not fam_cover:
             return KEY_FAMILY                 # cached data of another family shadows the question that was never asked
-        if within_all and fam_cover and l["fl"]["canon"] and l1["fl"]["canon"] and ("entries" in d or "addresses" in d):
+        if within_all and fam_cover and l["fl"]["canon"] and l1["fl"]["canon"] and ("entries" in d or "addresses" in d or "error -" in d):
             return KEY_CANON
         if fam_cover and within_some and not within_all:
             return KEY_TTL                    # between the smallest and the largest TTL of the first answer
